@@ -9,13 +9,14 @@ package main
 import (
 	"context"
 	"crypto/ecdsa"
+	"crypto/ed25519"
 	"crypto/elliptic"
 	"crypto/rand"
+	"crypto/rsa"
 	"encoding/json"
 	"errors"
 	"fmt"
 	"io"
-	"net"
 	"net/http"
 	"net/http/httptest"
 	"net/url"
@@ -53,6 +54,9 @@ type c04Infra struct {
 	jwks, intro, ident, meta *httptest.Server
 	dead                     string
 	keys                     map[string]*ecdsa.PrivateKey
+	rsaKey                   *rsa.PrivateKey
+	edKey                    ed25519.PrivateKey
+	hmacKey                  []byte
 
 	mu       sync.Mutex
 	introReg map[string]map[string]any
@@ -123,11 +127,34 @@ func c04Setup() (*c04Infra, error) {
 			inf.keys[name] = key
 		}
 
-		// k1, k2: ES256 keys; k3: published with a different algorithm than the one tokens are signed with
+		// keys for tokens naming other signature algorithms (none of them is published)
+		var kerr error
+
+		if inf.rsaKey, kerr = rsa.GenerateKey(rand.Reader, 2048); kerr != nil { //nolint:mnd
+			c04Error = kerr
+
+			return
+		}
+
+		if _, inf.edKey, kerr = ed25519.GenerateKey(rand.Reader); kerr != nil {
+			c04Error = kerr
+
+			return
+		}
+
+		inf.hmacKey = make([]byte, 64) //nolint:mnd
+		if _, kerr = rand.Read(inf.hmacKey); kerr != nil {
+			c04Error = kerr
+
+			return
+		}
+
+		// k1, k2: ES256 keys; k3: published with a different algorithm than the one tokens are signed with.
+		// k1 is the LAST key of the set, k2 the first (tokens without kid are tried against every key in turn).
 		set := jose.JSONWebKeySet{Keys: []jose.JSONWebKey{
-			{Key: inf.keys["k1"].Public(), KeyID: "k1", Algorithm: "ES256", Use: "sig"},
 			{Key: inf.keys["k2"].Public(), KeyID: "k2", Algorithm: "ES256", Use: "sig"},
 			{Key: inf.keys["k3"].Public(), KeyID: "k3", Algorithm: "ES384", Use: "sig"},
+			{Key: inf.keys["k1"].Public(), KeyID: "k1", Algorithm: "ES256", Use: "sig"},
 		}}
 
 		rawSet, err := json.Marshal(set)
@@ -293,7 +320,7 @@ func c04Setup() (*c04Infra, error) {
 		}))
 
 		// an address at which no HTTP server answers
-		ln, err := net.Listen("tcp", "127.0.0.1:0")
+		ln, err := verifListen("127.0.0.1:0")
 		if err != nil {
 			c04Error = err
 
@@ -310,7 +337,7 @@ func c04Setup() (*c04Infra, error) {
 					return
 				}
 
-				conn.Close()
+				verifCloseNow(conn)
 			}
 		}()
 
@@ -333,7 +360,21 @@ func (inf *c04Infra) mint(desc map[string]any) (string, error) {
 		opts = opts.WithHeader("kid", kid)
 	}
 
-	signer, err := jose.NewSigner(jose.SigningKey{Algorithm: jose.ES256, Key: key}, opts)
+	sk := jose.SigningKey{Algorithm: jose.ES256, Key: key}
+
+	switch alg := getStr(desc, "alg"); alg {
+	case "", "ES256":
+	case "RS256", "PS256":
+		sk = jose.SigningKey{Algorithm: jose.SignatureAlgorithm(alg), Key: inf.rsaKey}
+	case "EdDSA":
+		sk = jose.SigningKey{Algorithm: jose.EdDSA, Key: inf.edKey}
+	case "HS256":
+		sk = jose.SigningKey{Algorithm: jose.HS256, Key: inf.hmacKey}
+	default:
+		return "", fmt.Errorf("unknown algorithm %q", alg)
+	}
+
+	signer, err := jose.NewSigner(sk, opts)
 	if err != nil {
 		return "", err
 	}
@@ -519,7 +560,8 @@ func (inf *c04Infra) mechanism(m map[string]any) (config.Mechanism, error) {
 		return base + prefix + "ok"
 	}
 
-	if fb, ok := m["fb"].(bool); ok && typ != "anonymous" && typ != "unauthorized" {
+	// written only if the case states it: the default of the code under test is part of what is checked
+	if fb, ok := m["fb"].(bool); ok {
 		conf["allow_fallback_on_error"] = fb
 	}
 
@@ -591,6 +633,11 @@ func (inf *c04Infra) mechanism(m map[string]any) (config.Mechanism, error) {
 	case "generic":
 		conf["identity_info_endpoint"] = map[string]any{"url": endpoint(inf.ident.URL, "/identity/"), "method": "POST"}
 		conf["payload"] = "{{ .AuthenticationData }}"
+		if getBool(m, "tpl") {
+			// api keys of the form <id>.<secret>: only the secret is sent to the identity endpoint
+			conf["payload"] = `{{ atIndex 1 (splitList "." .AuthenticationData) }}`
+		}
+
 		conf["subject"] = map[string]any{"id": "sub"}
 
 		if getBool(m, "lifespan") {
@@ -608,7 +655,8 @@ func (inf *c04Infra) mechanism(m map[string]any) (config.Mechanism, error) {
 }
 
 func c04Subst(s string, tokens map[string]string) string {
-	if !strings.Contains(s, "@") {
+	// placeholders have the form J<name>.pl.hd (a JWS compact form themselves)
+	if !strings.Contains(s, ".pl.hd") {
 		return s
 	}
 
@@ -636,26 +684,10 @@ func c04Pairs(v any) [][2]string {
 
 func c04Arr(v any) []any { a, _ := v.([]any); return a }
 
-func c04Request(rq map[string]any, tokens map[string]string) *http.Request {
+func c04Request(rq map[string]any, tokens map[string]string) (*http.Request, error) {
 	method := getStr(rq, "method")
 	if method == "" {
 		method = http.MethodGet
-	}
-
-	q := url.Values{}
-	for _, p := range c04Pairs(rq["query"]) {
-		q.Add(p[0], c04Subst(p[1], tokens))
-	}
-
-	target := "http://heimdall.local/c04"
-	if len(q) != 0 {
-		// keep the order of the parameters
-		parts := []string{}
-		for _, p := range c04Pairs(rq["query"]) {
-			parts = append(parts, url.QueryEscape(p[0])+"="+url.QueryEscape(c04Subst(p[1], tokens)))
-		}
-
-		target += "?" + strings.Join(parts, "&")
 	}
 
 	var body io.Reader
@@ -665,7 +697,28 @@ func c04Request(rq map[string]any, tokens map[string]string) *http.Request {
 		body = strings.NewReader(c04Subst(getStr(bm, "raw"), tokens))
 	}
 
-	req := httptest.NewRequest(method, target, body)
+	req, err := http.NewRequestWithContext(context.Background(), method, "http://heimdall.local/c04", body)
+	if err != nil {
+		return nil, err
+	}
+
+	req.RemoteAddr = "192.0.2.1:1234"
+
+	// the query string: either exactly as it would stand in the request line, or rendered from decoded pairs
+	if raw, ok := rq["rawQuery"].(string); ok {
+		req.URL.RawQuery = c04Subst(raw, tokens)
+	} else {
+		parts := []string{}
+		for _, p := range c04Pairs(rq["query"]) {
+			parts = append(parts, url.QueryEscape(p[0])+"="+url.QueryEscape(c04Subst(p[1], tokens)))
+		}
+
+		req.URL.RawQuery = strings.Join(parts, "&")
+	}
+
+	if host, ok := rq["host"].(string); ok {
+		req.Host = c04Subst(host, tokens)
+	}
 
 	if hasBody {
 		if ct := getStr(bm, "ct"); ct != "" {
@@ -673,20 +726,29 @@ func c04Request(rq map[string]any, tokens map[string]string) *http.Request {
 		}
 	}
 
+	// header names in any spelling: net/http stores them in canonical form, as its server does
 	for _, p := range c04Pairs(rq["headers"]) {
 		req.Header.Add(p[0], c04Subst(p[1], tokens))
 	}
 
-	cookies := []string{}
-	for _, p := range c04Pairs(rq["cookies"]) {
-		cookies = append(cookies, p[0]+"="+c04Subst(p[1], tokens))
+	// Cookie header lines: either verbatim, or rendered from pairs
+	if lines, ok := rq["rawCookies"].([]any); ok {
+		for _, l := range lines {
+			line, _ := l.(string)
+			req.Header.Add("Cookie", c04Subst(line, tokens))
+		}
+	} else {
+		cookies := []string{}
+		for _, p := range c04Pairs(rq["cookies"]) {
+			cookies = append(cookies, p[0]+"="+c04Subst(p[1], tokens))
+		}
+
+		if len(cookies) != 0 {
+			req.Header.Set("Cookie", strings.Join(cookies, "; "))
+		}
 	}
 
-	if len(cookies) != 0 {
-		req.Header.Set("Cookie", strings.Join(cookies, "; "))
-	}
-
-	return req.WithContext(context.Background())
+	return req, nil
 }
 
 func c04Run(c map[string]any) (any, error) {
@@ -811,7 +873,11 @@ func c04Run(c map[string]any) (any, error) {
 	out := []any{}
 
 	for _, r := range getArr(c, "reqs") {
-		req := c04Request(obj(r), tokens)
+		req, err := c04Request(obj(r), tokens)
+		if err != nil {
+			return nil, err
+		}
+
 		if cch != nil {
 			req = req.WithContext(cache.WithContext(req.Context(), cch))
 		}
@@ -820,7 +886,7 @@ func c04Run(c map[string]any) (any, error) {
 
 		rec.take()
 
-		_, err := rul.Execute(ctx)
+		_, err = rul.Execute(ctx)
 
 		res := map[string]any{"trace": rec.take()}
 
